@@ -140,7 +140,11 @@ class World:
         self.emit("h.jobend", job=j)
         pidf = self.jobsroot / j / (j + ".pid")
         try:
-            os.kill(json.loads(pidf.read_text())["pid"], signal.SIGKILL)
+            pid = json.loads(pidf.read_text())["pid"]
+            os.kill(pid, signal.SIGKILL)
+            t0 = time.time()
+            while os.path.exists(f"/proc/{pid}") and time.time() - t0 < 15:      # until it has been reaped: the pid names nobody
+                time.sleep(0.05)
         except Exception as e:
             self.problems.append(f"could not kill job {j}: {e!r}")
         time.sleep(0.1)
@@ -283,6 +287,29 @@ def sc_orphan_killed():
     return w.close()
 
 
+def sc_late_start_two():
+    """a scheduler starts while two jobs of another one hold the token: its first recount starts two reclaim threads at
+    once (first use of the process handlers in that process); the jobs end one after the other"""
+    w = World(3, {"a": "p1", "b": "p1", "c": "p2"}, {"a": 1, "b": 1, "c": 3})
+    w.start("p1")
+    w.submit("a"); w.submit("b"); w.acquire("a"); w.acquire("b"); w.startjob("a"); w.startjob("b")
+    w.kill("p1")
+    w.start("p2")
+    w.submit("c"); w.acquire("c")
+    m = w.mark()
+    w.endjob("a")
+    w.wait_event(lambda r: r["e"] == "tok.file.delete" and r.get("job") == "a", 20, m)
+    w.quiescent()
+    w.endjob("b")
+    w.told("c", m)
+    w.quiescent()
+    r = w.acquire("c")
+    if r and r.get("acquired"):
+        w.release("c")
+    w.quiescent(0.3)
+    return w.close()
+
+
 def sc_dies_mid_create():
     """the scheduler is killed between the creation of the token file and its first write"""
     w = World(1, {"a": "p1", "b": "p2", "c": "p3"}, {"a": 1, "b": 1, "c": 1})
@@ -366,7 +393,7 @@ def sc_race_in_create():
     return w.close()
 
 
-SCENARIOS = {"orphan_killed": sc_orphan_killed, "race_in_create": sc_race_in_create, "contention": sc_contention, "halfwritten": sc_halfwritten, "owner_dies_running": sc_owner_dies_running,
+SCENARIOS = {"orphan_killed": sc_orphan_killed, "late_start_two": sc_late_start_two, "race_in_create": sc_race_in_create, "contention": sc_contention, "halfwritten": sc_halfwritten, "owner_dies_running": sc_owner_dies_running,
              "dies_mid_create": sc_dies_mid_create, "partial_returns": sc_partial_returns, "mixed": sc_mixed}
 
 if __name__ == "__main__":
